@@ -55,7 +55,16 @@ Definition denotes (s : list byte) (t : interface) : bool :=
   | _ => false
   end.
 
-Definition field_enums_ok (f : field) : bool := ty_enums_ok (fty f).
+(* shapes the grammar excludes although their tokens lex: an enum without variants, `??` *)
+Fixpoint ty_grammar_ok (t : ty) : bool :=
+  match t with
+  | TPrim _ | TCustom _ => true
+  | TOpt t => match t with TOpt _ => false | _ => ty_grammar_ok t end
+  | TArr t | TMap t => ty_grammar_ok t
+  | TEnum vs => match vs with [] => false | _ => true end
+  | TStruct fs => forallb (fun f => ty_grammar_ok (fty f)) fs
+  end.
+Definition field_enums_ok (f : field) : bool := ty_grammar_ok (fty f).
 Definition enums_ok (t : interface) : bool :=
   forallb (fun c => match c with
                     | CObject _ fs _ => forallb field_enums_ok fs
